@@ -423,7 +423,11 @@ func (i *interpreter) concretize(t *Term, why string) uint64 {
 		n++
 		if n > maxSplit {
 			i.solver.Pop()
-			panic(abort(abUnsupported, fmt.Sprintf("concretise(%s): more than %d feasible values", why, maxSplit)))
+			where := ""
+			if i.curFn != nil {
+				where = " in " + i.curFn.String()
+			}
+			panic(abort(abUnsupported, fmt.Sprintf("concretise(%s): more than %d feasible values%s", why, maxSplit, where)))
 		}
 		alt := append(append([]Decision{}, ps.trace...), Decision{'c', v})
 		ps.pending = append(ps.pending, WorkItem{Prefix: alt, Model: m})
